@@ -31,18 +31,42 @@ def collect(h):
     if not re.search(r"time\.Duration\(int64\(bucket\.state\.Period\)\s*/\s*int64\(bucket\.state\.MaxTokensPerPeriod\)\)", body):
         raise h.Missing(f"{rel}: refill interval is no longer Period / MaxTokensPerPeriod in whole nanoseconds")
     items.append(("rates_interval_is_period_div_count", "bool", "true", rel + " reset"))
-    # F23 repair (7348cd5bb): an interval of 0 ns with Period >= 0 is clamped to 1 ns before every()
-    clamped = re.search(r"if\s+d\s*==\s*0\s*&&\s*bucket\.state\.Period\s*>=\s*0\s*\{[^}]*d\s*=\s*time\.Nanosecond[^}]*\}\s*interval\s*=\s*every\(d\)", body, re.S)
+    # shapes of the interval clamp: none (before 7348cd5bb) | 0 ns with Period >= 0 (7348cd5bb) | every d <= 0 (e448004d7)
+    all_clamped = re.search(r"if\s+d\s*<=\s*0\s*\{[^}]*d\s*=\s*time\.Nanosecond[^}]*\}\s*interval\s*=\s*every\(d\)", body, re.S)
+    zero_clamped = re.search(r"if\s+d\s*==\s*0\s*&&\s*bucket\.state\.Period\s*>=\s*0\s*\{[^}]*d\s*=\s*time\.Nanosecond[^}]*\}\s*interval\s*=\s*every\(d\)", body, re.S)
     direct = re.search(r"interval\s*=\s*every\(time\.Duration\(int64\(bucket\.state\.Period\)", body)
-    if not clamped and not direct:
-        raise h.Missing(f"{rel}: reset: neither the clamped nor the direct form of the refill interval found")
-    items.append(("rates_sub_ns_interval_clamped", "bool", "true" if clamped else "false", rel + " reset"))
+    if not all_clamped and not zero_clamped and not direct:
+        raise h.Missing(f"{rel}: reset: none of the known forms of the refill interval found")
+    items.append(("rates_sub_ns_interval_clamped", "bool", "true" if (all_clamped or zero_clamped) else "false", rel + " reset"))
+    items.append(("rates_negative_interval_clamped", "bool", "true" if all_clamped else "false", rel + " reset"))
     # F24 repair (4e20ebf0e): the new limiter is primed with min(TakenTokens, MaxTokensPerPeriod)
     capped = re.search(r"allowN\(now,\s*int\(min\(bucket\.state\.TakenTokens,\s*bucket\.state\.MaxTokensPerPeriod\)\)\)", body)
     plain = re.search(r"allowN\(now,\s*int\(bucket\.state\.TakenTokens\)\)", body)
     if not capped and not plain:
         raise h.Missing(f"{rel}: reset: priming allowN(now, taken) not found in either form")
     items.append(("rates_taken_capped_at_count", "bool", "true" if capped else "false", rel + " reset"))
+    # F18 repair (ca6594b47), part 1: the new limiter starts full
+    full = re.search(r"bucket\.limiter\.tokens\s*=\s*float64\(bucket\.limiter\.burst\)\s*(//[^\n]*\n\s*)*bucket\.limiter\.allowN\(now,", body)
+    if not full and re.search(r"limiter\.tokens\s*=", body):
+        raise h.Missing(f"{rel}: reset: the limiter's tokens are initialised in an unknown way")
+    items.append(("rates_new_bucket_full", "bool", "true" if full else "false", rel + " reset"))
+    # RTRIP repair (d872ef03d): recalcBuketState rounds the taken tokens up and caps them at MaxUint32
+    body = h.func_body(rel, r"^func \(bucket \*bucketType\) recalcBuketState\(", "recalcBuketState")
+    ceil = re.search(r"value\s*:=\s*math\.Ceil\(float64\(bucket\.limiter\.burst\)\s*-\s*tokens\)", body) and \
+        re.search(r"if\s+value\s*>\s*math\.MaxUint32\s*\{\s*value\s*=\s*math\.MaxUint32", body)
+    trunc = re.search(r"value\s*:=\s*float64\(bucket\.limiter\.burst\)\s*-\s*tokens", body)
+    if not ceil and not trunc:
+        raise h.Missing(f"{rel}: recalcBuketState: neither the truncating nor the rounding-up form found")
+    items.append(("rates_taken_rounded_up", "bool", "true" if ceil else "false", rel + " recalcBuketState"))
+    # F18 repair (ca6594b47), part 2: durationFromTokens saturates at InfDuration
+    rel = "pkg/iratesce/rate.go"
+    body = h.func_body(rel, r"^func \(limit Limit\) durationFromTokens\(", "durationFromTokens")
+    sat = re.search(r"nanos\s*:=\s*float64\(time\.Second\)\s*\*\s*seconds\s*if\s+nanos\s*>=\s*float64\(InfDuration\)\s*\{[^}]*return\s+InfDuration[^}]*\}\s*return\s+time\.Duration\(nanos\)", body, re.S)
+    wrap = re.search(r"return\s+time\.Duration\(float64\(time\.Second\)\s*\*\s*seconds\)", body)
+    if not sat and not wrap:
+        raise h.Missing(f"{rel}: durationFromTokens: neither the saturating nor the plain conversion found")
+    items.append(("rates_wait_saturates", "bool", "true" if sat else "false", rel + " durationFromTokens"))
+    rel = "pkg/iratesce/impl.go"
     body = h.func_body(rel, r"^func \(b \*bucketsType\) TakeTokens\(", "TakeTokens")
     if not re.search(r"for\s+i\s*:=\s*range\s+keyIdx\s*\{", body) or not re.search(r"bucket\.limiter\.allowN\(t,\s*-n\)", body):
         raise h.Missing(f"{rel}: TakeTokens no longer gives the taken tokens back on refusal")
